@@ -84,7 +84,7 @@ def build(cfg):
         th = FakeMultiTherm(mc=cfg.get("mc", 3e-21), se=cfg.get("se2", (0.0, 0.0)), per_phase=perm, faults=FaultPlan(cfg.get("faults")))
     else:
         th = FakeBinaryTherm(K=cfg.get("K", 1e5), xe0=cfg.get("xe0", 0.005), se=cfg.get("se", 0.0), T0=cfg.get("T0", 1000.0),
-                             xb=cfg.get("xb", 0.25), xlim=cfg.get("xlim", 0.3), D=cfg.get("D", 1e-17), per_phase=per,
+                             xb=cfg.get("xb", 0.25), cb=cfg.get("cb", 1e-6), xlim=cfg.get("xlim", 0.3), D=cfg.get("D", 1e-17), per_phase=per,
                              faults=FaultPlan(cfg.get("faults")))
     els = ["B", "C"] if multi else ["B"]
     temp = cfg.get("temp", ("const", 1000))
@@ -371,7 +371,10 @@ def project(cfg, res):
             tab = (prev["xbeta"][p] if prev is not None else None)
             fc = np.array(row["fconc"][p], dtype=float)
             q["fconc"] = []
-            if tab is not None and len(tab) == nb and not reset_step and m.precipitateParameters[p].infinitePrecipitateDiffusion and cfg.get("iter", "euler") == "euler":
+            # (with a size-independent precipitate composition the table is constant, and the content is the same weighted moment
+            #  whether it is recomputed every step or integrated over the history, with either iterator)
+            const_xb = bool(hasattr(th, "_pp") and not cfg.get("multi") and float(th._pp(m.phases[p], "cb")) == 0.0 and float(th._pp(m.phases[p], "se")) == 0.0)
+            if tab is not None and len(tab) == nb and not reset_step and ((m.precipitateParameters[p].infinitePrecipitateDiffusion and cfg.get("iter", "euler") == "euler") or const_xb):
                 mid = 0.5 * (tab[:-1] + tab[1:])
                 for el in range(E):
                     expct = 0.0 if below else rv * moment(psd, bnds, 3, mid[:, el])
@@ -415,6 +418,9 @@ def project(cfg, res):
         e["sumfv"] = bool(sumfv <= 1.0 + 1e-12)
         comp = np.atleast_1d(row["composition"])
         e["comprange"] = bool(np.all(comp >= 0) and np.all(comp <= 1))
+        for a_ in ("xEqAlpha", "xEqBeta"):        # the recorded interfacial (equilibrium) compositions are compositions too
+            v_ = np.asarray(row[a_], dtype=float)
+            e["comprange"] = bool(e["comprange"] and np.all(v_ >= 0) and np.all(v_ <= 1))
         mb = []
         for el in range(E):
             # the documented clamp: a NEGATIVE balance result is replaced by minComposition (nothing else may be overwritten)
